@@ -1043,11 +1043,12 @@ func (e *Env) evalCall(n ECall) tv {
 			return e.fail("predicate %s expects %d arguments", n.Fn, len(pd.Params))
 		}
 		ce := e.child()
+		n0 := len(ce.errs)
 		for i, p := range pd.Params {
 			ce.vars[p.Name] = e.eval(n.Args[i])
 		}
 		r := ce.eval(pd.Body)
-		e.errs = append(e.errs, ce.errs[len(e.errs):]...)
+		e.errs = append(e.errs, ce.errs[n0:]...)
 		return r
 	}
 	// repo functions declared pure: the same uninterpreted function the call sites use
@@ -1211,4 +1212,36 @@ func (e *Env) lockOf(x Expr) (string, Term, bool) {
 		return "", Term{}, false
 	}
 	return shortTypeKey(derefType(base.t)) + "." + sel.Name, ref, true
+}
+
+// evalRequires evaluates a precondition conjunct by conjunct. A conjunct that only fails to evaluate
+// because it names a variable the function does not have at all (a captured variable that is no longer
+// captured, a removed parameter) says nothing the body could observe: it is dropped with a note rather
+// than making the whole contract unevaluable.
+func (e *Env) evalRequires(x Expr, fn *ssa.Function) Term {
+	if b, ok := x.(EBinary); ok && b.Op == "&&" {
+		return And(e.evalRequires(b.X, fn), e.evalRequires(b.Y, fn))
+	}
+	n0 := len(e.errs)
+	g := e.evalBool(x)
+	if len(e.errs) == n0 || fn == nil {
+		return g
+	}
+	droppable := true
+	sawUnknown := false
+	for _, msg := range e.errs[n0:] {
+		if strings.HasPrefix(msg, "unknown identifier ") {
+			name := strings.Trim(strings.TrimPrefix(msg, "unknown identifier "), "\"")
+			if e.c.eng.localType(fn, name) != nil {
+				droppable = false
+			}
+			sawUnknown = true
+		}
+	}
+	if droppable && sawUnknown {
+		e.c.note(fmt.Sprintf("precondition conjunct `%s` of %s dropped: it names a variable the function no longer has", x.exprString(), qualFnName(fn)))
+		e.errs = e.errs[:n0]
+		return True
+	}
+	return g
 }
